@@ -650,30 +650,16 @@ class Triangle(Polygon, Simplex):
 
         # TODO: vectorize
 
-        a, b, c, p = np.broadcast_arrays(*self.array, other.array)
+        a, b, c, p = np.broadcast_arrays(*self.normalized_array, other.normalized_array)
 
         lambda1 = det(np.stack([p, b, c], axis=-2))
         lambda2 = det(np.stack([a, p, c], axis=-2))
-
-        result = (lambda1 <= 0) == (lambda2 <= 0)
-
-        if not np.any(result):
-            return result
-
         lambda3 = det(np.stack([a, b, p], axis=-2))
 
-        area = lambda1 + lambda2 + lambda3
-
-        if np.isscalar(area):
-            if area < 0:
-                return lambda1 <= 0 and lambda3 <= 0
-            return lambda1 >= 0 and lambda3 >= 0
-
-        ind = area < 0
-        result[ind] &= (lambda1[ind] <= 0) & (lambda3[ind] <= 0)
-        result[~ind] &= (lambda1[~ind] >= 0) & (lambda3[~ind] >= 0)
-
-        return result
+        # closed triangle: the three (oriented) barycentric coordinates have one sign or vanish
+        nonneg = (lambda1 >= 0) & (lambda2 >= 0) & (lambda3 >= 0)
+        nonpos = (lambda1 <= 0) & (lambda2 <= 0) & (lambda3 <= 0)
+        return nonneg | nonpos
 
 
 class Rectangle(Polygon):
